@@ -47,6 +47,10 @@ pub struct Case {
     pub units: Vec<Unit>,
     /// last line has no trailing newline
     pub no_final_newline: bool,
+    /// the script installs a USR1 trap first; the simulator then sends signals
+    /// while the shell reads its input
+    #[serde(default)]
+    pub trap: bool,
 }
 
 struct Gen<'a> {
@@ -342,6 +346,20 @@ pub fn generate(rng: &mut Rng, tier: Tier) -> Case {
         status: 0,
     };
     let mut units = Vec::new();
+    let trap = g.rng.below(4) == 0;
+    if trap {
+        let plain = |line: &str| Unit {
+            lines: vec![line.to_string()],
+            out: vec![],
+            tells: vec![],
+            status: Some(0),
+            reads_stdin: false,
+            exits: false,
+            error: false,
+        };
+        units.push(plain("trap 'mark tb U1; mark te U1; rc 5' USR1"));
+        units.push(plain("mark armed"));
+    }
     for _ in 0..n {
         units.push(g.unit());
     }
@@ -414,6 +432,7 @@ pub fn generate(rng: &mut Rng, tier: Tier) -> Case {
     Case {
         units,
         no_final_newline,
+        trap,
     }
 }
 
@@ -656,6 +675,13 @@ fn run_one(c: &Case, variant: Variant, cfg: &SimConfig, decider: Decider) -> (Ob
     let exp = expect(c);
     let spec = spec_of(&exp, variant);
     let script = exp.script.clone().into_bytes();
+    let plan = crate::shellrun::SigPlan {
+        inject: c.trap && cfg.strategy != Strategy::Fifo,
+        spaced: true,
+        rate: 120,
+        max: 3,
+        second: 0,
+    };
     let obs = run_script_with(
         &spec,
         cfg,
@@ -665,9 +691,21 @@ fn run_one(c: &Case, variant: Variant, cfg: &SimConfig, decider: Decider) -> (Ob
                 plumb_feeder(w, script);
             }
         },
-        |_, _| true,
+        crate::shellrun::signal_env(plan),
     );
-    let v = check_run(&exp, variant, &obs);
+    let mut v = check_run(&exp, variant, &obs);
+    if v.is_none() && c.trap {
+        // a trap action never runs more often than its signal was delivered
+        let runs = obs.history.iter().filter(|e| e.kind == "mark" && e.pid == 2 && e.text.starts_with("tb ")).count();
+        let dels = obs.history.iter().filter(|e| e.kind == "deliver").count();
+        if runs > dels {
+            v = Some((
+                "trap-count".into(),
+                "trap-count".into(),
+                format!("{dels} signals were delivered while the shell read its input but the trap ran {runs} times"),
+            ));
+        }
+    }
     (obs, v)
 }
 
@@ -809,7 +847,9 @@ impl Prop for C18 {
         for i in 0..first_exit {
             let u = &s.case.units[i];
             let l0 = u.lines.first().map(String::as_str).unwrap_or("");
-            let defines = l0.starts_with("alias ")
+            let defines = l0.starts_with("trap ")
+                || l0.starts_with("mark ")
+                || l0.starts_with("alias ")
                 || l0.starts_with("set ")
                 || l0.starts_with("v=")
                 || (l0.starts_with('f') && l0.ends_with("() {"));
